@@ -98,6 +98,13 @@ func renderSiblingsCase(c *core.Ctx, rules func(*opc.Package) []opc.Problem, wei
 		return res
 	}
 	base.Doc.AddParagraph("{{x}} {{name}}")
+	if r.Chance(1, 3) { // the template document may itself come from a file
+		if b, err := base.Doc.ToBytes(); err == nil {
+			if d2, err := document.OpenFromMemory(io.NopCloser(bytes.NewReader(b))); err == nil && d2 != nil && d2.Body != nil {
+				base.adopt(d2)
+			}
+		}
+	}
 	eng := document.NewTemplateEngine()
 	if _, err := eng.LoadTemplateFromDocument("base", base.Doc); err != nil {
 		res.Count("template_load_errors", 1)
@@ -123,7 +130,7 @@ func renderSiblingsCase(c *core.Ctx, rules func(*opc.Package) []opc.Problem, wei
 		}
 		s := NewScript(r, false, c.WorkDir)
 		s.NoReopen = true
-		s.NoLists = true
+		s.NoLists = false // list and note registries are per document
 		s.adopt(d)
 		s.serial = 100 * (i + 1) // distinct pictures per render
 		s.Weights = weights
